@@ -38,13 +38,18 @@ def main():
     dst = os.path.join(V, "seeded", a.name)
     os.makedirs(dst, exist_ok=True)
     for f in os.listdir(a.src):
-        if f.endswith(".diff") or f.endswith("_test.go") or f == "notes.txt":
-            shutil.copy(os.path.join(a.src, f), os.path.join(dst, f))
+        if f in ("seedtest.out", "__pycache__"):
+            continue
+        src = os.path.join(a.src, f)
+        if os.path.isdir(src):
+            shutil.copytree(src, os.path.join(dst, f), dirs_exist_ok=True, ignore=shutil.ignore_patterns("__pycache__"))
+        elif os.path.getsize(src) < 300000:
+            shutil.copy(src, os.path.join(dst, f))
     notes = open(os.path.join(a.src, "notes.txt"), errors="replace").read() if os.path.exists(os.path.join(a.src, "notes.txt")) else ""
     head = subprocess.check_output(["git", "-C", "/repo", "log", "--oneline", "-1"], text=True).split()[0]
     meta = {
         "property": a.prop,
-        "origin": "independent sub-agent given only the property text and a scratch worktree of /repo (second round)",
+        "origin": "independent sub-agent given only the property text and a scratch worktree of /repo (later round)",
         "base_commit": f"written against 956e246; validated at {head}" + (" (patch.diff rebased by hand, the author's patch is patch.orig-956e246.diff)" if os.path.exists(os.path.join(a.src, "patch.orig-956e246.diff")) else ""),
         "what_it_needs_to_manifest": " ".join(notes.split())[:900],
         "validated": {"patch_applies": j.get("applies"), "existing_suite_passes_with_patch": j.get("suite_passes"),
